@@ -442,9 +442,11 @@ fn gen_idref(r: &mut Rng, n_issued: usize) -> Value {
     }
 }
 
-fn gen_history(r: &mut Rng, spec: &str, max_ops: u64) -> Value {
+fn gen_history(r: &mut Rng, spec: &str, max_ops: u64) -> Value { gen_history_sized(r, spec, max_ops, false) }
+fn gen_history_sized(r: &mut Rng, spec: &str, max_ops: u64, small: bool) -> Value {
     let n = r.range(3, max_ops);
     let common = *r.pick(&[0u64, 1, 5, 16, 64, 100]);
+    let gen_rec = |r: &mut Rng, common: u64| -> Value { if small { json!([r.below(5), *r.pick(&[0u64, 0, 1, 2, 3, 5, 5, 8, 13, 40]), r.below(100)]) } else { gen_rec(r, common) } };
     let zero = base_of(spec) == "zero";
     let mut ops: Vec<Value> = vec![];
     let mut issued = 0usize;
@@ -515,7 +517,12 @@ fn check_built(st: &dyn BlobStore, want: &[Vec<u8>], what: &str) -> Option<Strin
     None
 }
 
-fn build_class(cell: &str, detail: &str) -> Option<&'static str> { let _ = (cell, detail); None }
+/// memory_id_wraparound: the store was seeded (from_data) with an id so close to u32::MAX that the 32-bit id counter
+/// reaches 2^32 within the puts of the case.
+fn seeded_wraps(case: &Value) -> bool {
+    let mx = case["ids"].as_array().map(|a| a.iter().map(|x| x.as_u64().unwrap_or(0)).max().unwrap_or(0)).unwrap_or(0);
+    mx + 1 + case["puts"].as_u64().unwrap_or(3) > u32::MAX as u64
+}
 
 fn run_build(cx: &mut Ctx, case: &Value, _force_coq: bool) {
     let spec = case["cell"].as_str().unwrap_or("").to_string();
@@ -637,6 +644,25 @@ fn run_build(cx: &mut Ctx, case: &Value, _force_coq: bool) {
                 match s.put(b"x") { Ok(id) => if (id as usize) < recs.len() { return Some(format!("put after from_data reused live id {}", id)); }, Err(e) => return Some(format!("put failed: {}", e)) }
                 None
             }
+            "memory_seeded" => {
+                // from_data with explicit ids, then puts: a new id must never be the id of a live record
+                let ids: Vec<u64> = case["ids"].as_array().map(|a| a.iter().map(|x| x.as_u64().unwrap_or(0)).collect()).unwrap_or_default();
+                let mut m: HashMap<RecordId, Vec<u8>> = HashMap::new();
+                for (id, d) in ids.iter().zip(recs.iter()) { m.insert(*id as RecordId, d.clone()); }
+                let mut shadow = m.clone();
+                let mut s = MemoryBlobStore::from_data(m);
+                for k in 0..case["puts"].as_u64().unwrap_or(3) {
+                    let d = vec![200u8, k as u8];
+                    match s.put(&d) {
+                        Ok(id) => { if shadow.contains_key(&id) { return Some(format!("put #{} returned id {} which is the id of a live record", k, id)); } shadow.insert(id, d); }
+                        Err(e) => return Some(format!("put failed: {}", e)),
+                    }
+                }
+                let mut all: Vec<RecordId> = shadow.keys().copied().collect(); all.sort();
+                for id in all { if let Some(x) = probe(&s, id, &shadow) { return Some(x); } }
+                if s.len() != shadow.len() { return Some(format!("len() = {} but {} records are live", s.len(), shadow.len())); }
+                None
+            }
             "nlt_builder" => {
                 let cfg = match cfgname { "perf" => TrieBlobStoreConfig::performance_optimized(), "mem" => TrieBlobStoreConfig::memory_optimized(), "sec" => TrieBlobStoreConfig::security_optimized(), _ => TrieBlobStoreConfig::default() };
                 let mut b = match NestLoudsTrieBlobStoreBuilder::<RankSelectInterleaved256>::new(cfg) { Ok(b) => b, Err(e) => return Some(format!("builder construction failed: {}", e)) };
@@ -660,7 +686,7 @@ fn run_build(cx: &mut Ctx, case: &Value, _force_coq: bool) {
     });
     match r { Ok(x) => failure = x, Err(p) => failure = Some(format!("panicked: {}", p)) }
     if let Some(m) = failure {
-        let class = build_class(&spec, &m);
+        let class = if kind == "memory_seeded" && seeded_wraps(case) { Some("memory_id_wraparound") } else { None };
         cx.sum.fail(&cell, class, case.clone(), &m);
     } else if let Some(t) = coq_term {
         if _force_coq || cx.shards.len() < cx.budget { cx.shards.push(t, case.clone()); }
@@ -686,8 +712,115 @@ fn gen_records(r: &mut Rng, allow_big: bool) -> Vec<Value> {
     }).collect()
 }
 
+const KEYS: [&str; 14] = ["", "a", "ab", "abc", "abd", "b", "ba", "k1", "k10", "k2", "key", "keyed", "z", "zz"];
+fn gen_keyed(r: &mut Rng, spec: &str) -> Value {
+    let n = r.range(4, 40);
+    let mut ops: Vec<Value> = vec![];
+    let mut issued = 0usize;
+    for _ in 0..n {
+        let key = *r.pick(&KEYS[..]);
+        match r.below(100) {
+            0..=39 => { ops.push(json!(["putk", key, gen_rec(r, 5)])); issued += 1; }
+            40..=44 => { ops.push(json!(["put", gen_rec(r, 5)])); issued += 1; }
+            45..=59 => ops.push(json!(["rm", gen_idref(r, issued)])),
+            60..=79 => ops.push(json!(["getk", key])),
+            80..=89 => ops.push(json!(["prefix", *r.pick(&["", "a", "ab", "k", "k1", "ke", "z", "q"])])),
+            90..=95 => ops.push(json!(["get", gen_idref(r, issued)])),
+            _ => ops.push(json!(["len"])),
+        }
+    }
+    json!({"cell": spec, "kind": "keyed", "ops": ops})
+}
+
+/// Keyed API of NestLoudsTrieBlobStore: put_with_key / get_by_key / get_by_prefix next to the id API.
+fn run_keyed(cx: &mut Ctx, case: &Value) {
+    let spec = case["cell"].as_str().unwrap_or("nlt_keyed:default").to_string();
+    let cell = format!("history/{}", spec);
+    let ops: Vec<Value> = case["ops"].as_array().cloned().unwrap_or_default();
+    cx.sum.eval(&cell, &case.to_string(), ops.len() >= 3);
+    let cfg = match spec.split(':').nth(1).unwrap_or("") { "perf" => TrieBlobStoreConfig::performance_optimized(), "mem" => TrieBlobStoreConfig::memory_optimized(), "sec" => TrieBlobStoreConfig::security_optimized(), _ => TrieBlobStoreConfig::default() };
+    let r = guarded(|| -> Option<String> {
+        let mut st = match Nt::new(cfg) { Ok(s) => s, Err(e) => return Some(format!("construction failed: {}", e)) };
+        let mut shadow: HashMap<RecordId, Vec<u8>> = HashMap::new();
+        let mut key_of: HashMap<RecordId, Vec<u8>> = HashMap::new();
+        let mut latest: HashMap<Vec<u8>, RecordId> = HashMap::new();   // key -> id of the most recent put under it
+        let mut issued: Vec<RecordId> = vec![];
+        for (k, op) in ops.iter().enumerate() {
+            let at = |m: String| Some(format!("op #{} {}: {}", k, op, m));
+            match op[0].as_str().unwrap_or("") {
+                "putk" | "put" => {
+                    let keyed = op[0] == "putk";
+                    let key: Vec<u8> = if keyed { op[1].as_str().unwrap_or("").as_bytes().to_vec() } else { vec![] };
+                    let data = rec_bytes(if keyed { &op[2] } else { &op[1] });
+                    let res = if keyed { st.put_with_key(&key, &data) } else { st.put(&data) };
+                    match res {
+                        Ok(id) => {
+                            if shadow.contains_key(&id) { return at(format!("returned id {} which is the id of another live record", id)); }
+                            shadow.insert(id, data); issued.push(id);
+                            if keyed { key_of.insert(id, key.clone()); latest.insert(key, id); }
+                        }
+                        Err(e) => return at(format!("put refused: {}", e)),
+                    }
+                }
+                "rm" => {
+                    let id = resolve(&op[1], &issued);
+                    let live = shadow.contains_key(&id);
+                    match st.remove(id) { Ok(()) => { shadow.remove(&id); } Err(e) => if live { return at(format!("remove({}) of a live record failed: {}", id, e)); } }
+                }
+                "get" => { let id = resolve(&op[1], &issued); if let Some(m) = probe(&st, id, &shadow) { return at(m); } }
+                "len" => { if st.len() != shadow.len() { return at(format!("len() = {} but {} records are live", st.len(), shadow.len())); } }
+                "getk" => {
+                    let key = op[1].as_str().unwrap_or("").as_bytes().to_vec();
+                    let got = st.get_by_key(&key);
+                    // records put under this key that are still live
+                    let live_same: Vec<&Vec<u8>> = key_of.iter().filter(|(id, kk)| **kk == key && shadow.contains_key(id)).map(|(id, _)| &shadow[id]).collect();
+                    match latest.get(&key) {
+                        None => if let Ok(d) = got { return at(format!("get_by_key of a key never put returned {} bytes", d.len())); },
+                        Some(id) if shadow.contains_key(id) => match got {
+                            Ok(d) => if d != shadow[id] { return at(format!("get_by_key returned {} but the latest record put under the key is {}", hex(&d), hex(&shadow[id]))); },
+                            Err(e) => return at(format!("get_by_key failed ({}) but record {} put under the key is live", e, id)),
+                        },
+                        Some(_) => if let Ok(d) = got { if !live_same.iter().any(|x| **x == d) { return at(format!("get_by_key returned {} which belongs to no live record put under the key", hex(&d))); } },
+                    }
+                }
+                "prefix" => {
+                    let p = op[1].as_str().unwrap_or("").as_bytes().to_vec();
+                    let got = match st.get_by_prefix(&p) { Ok(v) => v, Err(e) => return at(format!("get_by_prefix failed: {}", e)) };
+                    for (kk, d) in &got {
+                        if !kk.starts_with(&p) { return at(format!("get_by_prefix returned key {:?} without the prefix", String::from_utf8_lossy(kk))); }
+                        let unkeyed_live = shadow.iter().any(|(id, dd)| !key_of.contains_key(id) && dd == d);
+                        let ok = unkeyed_live || key_of.iter().any(|(id, k2)| k2 == kk && shadow.get(id) == Some(d));
+                        if !ok { return at(format!("get_by_prefix returned ({:?}, {}) which is no live record put under that key", String::from_utf8_lossy(kk), hex(d))); }
+                    }
+                    for (kk, id) in &latest {
+                        if kk.starts_with(&p) && shadow.contains_key(id) {
+                            match got.iter().find(|(k2, _)| k2 == kk) {
+                                Some((_, d)) => if *d != shadow[id] { return at(format!("get_by_prefix maps key {:?} to {} but the latest live record is {}", String::from_utf8_lossy(kk), hex(d), hex(&shadow[id]))); },
+                                None => return at(format!("get_by_prefix misses key {:?} whose record {} is live", String::from_utf8_lossy(kk), id)),
+                            }
+                        }
+                    }
+                }
+                _ => {}
+            }
+            if st.len() != shadow.len() { return at(format!("afterwards len() = {} but {} records are live", st.len(), shadow.len())); }
+        }
+        let mut ids = issued.clone(); ids.push(issued.len() as u32 + 5); ids.push(u32::MAX);
+        for id in ids { if let Some(m) = probe(&st, id, &shadow) { return Some(format!("final sweep: {}", m)); } }
+        None
+    });
+    let failure = match r { Ok(x) => x, Err(p) => Some(format!("panicked: {}", p)) };
+    if let Some(m) = failure {
+        // nlt_trie_enumeration: the failing operation is a prefix query that misses a stored key, or a remove that
+        // cannot restore the key from the trie node - both answered by ZiporaTrie (keys_with_prefix / restore_string, property C05)
+        let class = if (m.contains("[\"prefix\"") && m.contains("get_by_prefix misses key")) || (m.contains("[\"rm\"") && m.contains("Could not restore key")) { Some("nlt_trie_enumeration") } else { None };
+        cx.sum.fail(&cell, class, case.clone(), &m);
+    }
+}
+
 fn run_case(cx: &mut Ctx, case: &Value, force: bool) {
     match case["kind"].as_str().unwrap_or("history") {
+        "keyed" => run_keyed(cx, case),
         "build" => run_build(cx, case, force),
         _ => run_history(cx, case, force),
     }
@@ -758,7 +891,7 @@ pub fn run(args: &Args) {
     }
     // extra volume on the modelled cell
     for _ in 0..(if args.thorough { 3000 } else { 300 }) {
-        let c = gen_history(&mut rng, "memory", 40);
+        let c = gen_history_sized(&mut rng, "memory", 40, true);
         run_case(&mut cx, &c, false);
     }
     // 3. bulk builders
@@ -771,6 +904,23 @@ pub fn run(args: &Args) {
             if spec.starts_with("zipoffset_batch") { c["batch"] = json!(*rng.pick(&[1u64, 2, 3, 4, 7])); }
             run_case(&mut cx, &c, false);
         }
+    }
+    // 4. stores seeded with explicit ids (from_data), incl. ids next to u32::MAX
+    for _ in 0..(if args.thorough { 400 } else { 40 }) {
+        let n = rng.range(1, 5);
+        let base: u64 = match rng.below(6) { 0 => 0, 1 => 1, 2 => rng.below(100000), 3 => 1 << 31, 4 => u32::MAX as u64 - n - rng.below(6), _ => rng.below(u32::MAX as u64 - 10) };
+        let mut ids: Vec<u64> = (0..n).map(|i| (base + i * rng.range(1, 3)).min(u32::MAX as u64)).collect();
+        ids.dedup();
+        if rng.chance(1, 3) { ids.insert(0, 1); ids.dedup(); }
+        let recs: Vec<Value> = ids.iter().map(|_| json!([1, rng.below(6), rng.below(100)])).collect();
+        let c = json!({"cell": "memory_seeded", "kind": "build", "ids": ids, "recs": recs, "puts": rng.range(1, 4)});
+        run_case(&mut cx, &c, false);
+    }
+    // 5. keyed histories on the trie store
+    for round in 0..(if args.thorough { 200 } else { 12 }) {
+        let spec = ["nlt_keyed:default", "nlt_keyed:perf", "nlt_keyed:mem", "nlt_keyed:sec"][round % 4];
+        let c = gen_keyed(&mut rng, spec);
+        run_case(&mut cx, &c, false);
     }
     cx.sum.dist_max("coq_cases", cx.shards.len() as u64);
     for (cell, _) in cx.sum.cells.clone() {
